@@ -176,6 +176,17 @@ func main() {
 			v.engineErrors = append(v.engineErrors, fmt.Sprintf("%s: sameas %s, but that function is not verified in this configuration", k, target))
 		}
 	}
+	for target, k := range v.dispatchUsed {
+		verified := false
+		for _, f := range cfg.Functions {
+			if f == target {
+				verified = true
+			}
+		}
+		if !verified {
+			v.engineErrors = append(v.engineErrors, fmt.Sprintf("%s: dispatch %s, but that function is not verified in this configuration", k, target))
+		}
+	}
 	v.splitKnown()
 	genS := time.Since(t1).Seconds()
 	t2 := time.Now()
